@@ -282,3 +282,35 @@ Fixpoint cells_eqb (a b : list (string * list string)) : bool :=
   end.
 
 Definition cells_ok (g : list (string * list string)) : bool := cells_eqb g expected_cells.
+
+(* ---------------------------------------------------------------- cache keys are values
+   The machines compare cache keys BY VALUE (recalc / recalc2 / same_basis / same_basis2 compare the requested
+   key with the stored one), i.e. they assume a stored key is a value captured at call time.  That holds when the
+   attribute is assigned a constant, a copy, or an immutable scalar; it fails when the attribute is the caller's
+   own ndarray (np.asarray does not copy): editing that array between calls changes the stored key silently. *)
+Definition kstore_by_value (k : kstore) : bool :=
+  match k with KConst | KCopy | KCheckedScalar => true | _ => false end.
+
+(* key attributes that the CURRENT source still keeps by reference (reported findings
+   leak:1d:num_knots-array-mutated, leak:2d:num_knots-array-mutated, leak:2d:spline_degree-array-mutated; the 1-D
+   spline_degree is kept by reference too but a 0-d array is rejected by the numba basis kernel before it matters).
+   Histories that change such a key through a caller-owned array are outside the theorems' hypothesis and are
+   excluded from the correspondence; the witnesses are replayed on every run. *)
+Definition by_reference_known : list (string * string) := [
+  ("SplineBasis", "num_knots"); ("SplineBasis", "spline_degree");
+  ("SplineBasis2D", "num_knots"); ("SplineBasis2D", "spline_degree") ].
+
+Definition in_known (c a : string) : bool :=
+  existsb (fun p => String.eqb (fst p) c && String.eqb (snd p) a) by_reference_known.
+
+Definition keys_ok (g : list (string * string * string * kstore)) : bool :=
+  forallb (fun e => let '(c, a, _, k) := e in kstore_by_value k || in_known c a) g.
+
+(* the classes / attributes that must appear at all (fail-closed against a renamed or vanished store) *)
+Definition key_attr_present (g : list (string * string * string * kstore)) (c a : string) : bool :=
+  existsb (fun e => let '(c', a', _, _) := e in String.eqb c c' && String.eqb a a') g.
+Definition keys_complete (g : list (string * string * string * kstore)) : bool :=
+  key_attr_present g "_PolyHelper" "poly_order" && key_attr_present g "_PolyHelper2D" "poly_order" &&
+  key_attr_present g "_PolyHelper2D" "max_cross" && key_attr_present g "SplineBasis" "num_knots" &&
+  key_attr_present g "SplineBasis" "spline_degree" && key_attr_present g "SplineBasis2D" "num_knots" &&
+  key_attr_present g "SplineBasis2D" "spline_degree".
